@@ -79,7 +79,8 @@ TEXT["C14"]["technique"] += "; history relation over one caller buffer rewritten
 TEXT["C15"]["technique"] += "; history relation: matcher values reused after warm-up documents store the same as fresh ones"
 TEXT["C03"]["engine"] = "wb+sched"
 TEXT["C03"]["technique"] += "; the concurrency clause is explored with generated scenarios x schedules on the cooperative scheduler (serial-prediction oracle)"
-TEXT["C19"]["engine"] = "wb+bb"
+TEXT["C19"]["engine"] = "wb+sched+bb"
+TEXT["C19"]["technique"] += "; the file-k clause under concurrency is explored with standalone calls on the cooperative scheduler (incl. every schedule with <= 2 preemptions for two tests whose names differ in case only)"
 TEXT["C19"]["technique"] += "; plus a black-box stage: a real test program (also checked out under a path with '%' and a blank, normal and -trimpath builds) whose k-th standalone call must create file k with exactly the value, then replays on CI"
 TEXT["C07"]["engine"] = "wb+bb"
 TEXT["C07"]["technique"] += "; cross-checked by a black-box stage with the real test runner (real -test.count / -test.run, Clean called from TestMain)"
@@ -93,7 +94,7 @@ TEXT["C13"]["technique"] += "; enumerated texts whose distinct-line count sits o
 NOT_APPLICABLE = {}
 
 ENGINES = [
-    dict(name="sched", path="/verif/sched", serves_properties=["C03", "C06"], kind_free_text="controlled scheduler: go/parser based rewriter inserting yields, cooperative sync shim, schedule-driven runner"),
+    dict(name="sched", path="/verif/sched", serves_properties=["C03", "C06", "C19"], kind_free_text="controlled scheduler: go/parser based rewriter inserting yields, cooperative sync shim, schedule-driven runner"),
     dict(name="bb", path="/verif/bb", serves_properties=["C01", "C05", "C07", "C08", "C11", "C12", "C19", "C20"], kind_free_text="black-box rapid properties driving a compiled, data-driven test program (real testing runner, TestMain, environment) as sub-processes"),
     dict(name="race", path="/verif/wb", serves_properties=["C06", "C12"], kind_free_text="the white-box binary built with -race; generated goroutine mixes"),
     dict(name="wb", path="/verif/wb", serves_properties=["C01","C02","C03","C04","C07","C09","C10","C12","C13","C14","C15","C16","C17","C18","C19","C20"], kind_free_text="white-box rapid properties compiled into package snaps via go test -overlay"),
